@@ -304,8 +304,10 @@ def hostile_rule_text(rnd, ds):
     if rnd.random() < 0.25: p.append('BYSETPOS=' + lst([1, -1, 366, -366, 367, 0, 383, 384, 400, 65], rnd.randint(1, 3)))
     if rnd.random() < 0.5:
         y = rnd.random()
-        if y < 0.25:      # maximal product
-            p += ['BYHOUR=' + ALLH, 'BYMINUTE=' + ALL60, 'BYSECOND=' + ALL60]
+        if y < 0.25:      # maximal product; the parser takes hour 24 and second 60 (leap second) too: 25 hours, 61 seconds
+            z = rnd.random()
+            p += ['BYHOUR=' + ALLH + (',24' if z < 0.5 else ''), 'BYMINUTE=' + ALL60, 'BYSECOND=' + ALL60 + (',60' if 0.25 < z < 0.75 else '')]
+            if rnd.random() < 0.3: p = [q for q in p if rnd.random() < 0.6 or not q.startswith('BY')]
         elif y < 0.5:     # incongruent with the interval
             p.append('BYHOUR=' + lst([1, 3, 5, 7, 23], 2)) if rnd.random() < 0.7 else None
             p.append('BYMINUTE=' + lst([1, 7, 31, 59], 2)) if rnd.random() < 0.7 else None
